@@ -43,6 +43,7 @@ type ANode struct {
 	Act      []Op   // nil: no action
 	Native   bool   // render action and guards as native Go actions
 	Partial  bool   // native only: on failure return a partial execution together with the error
+	InPlace  bool   // native only: the action works on the bindings map it is given (as the repository's own native test actions do) and returns that map
 	BType    string // "", "message", "bindings"; "" with NoBranching => no branching at all
 	NoBr     bool
 	Branches []ABranch
@@ -134,19 +135,27 @@ func JS(ops []Op) string {
 var errBoom = errors.New("boom (native)")
 
 // Native renders an op-list as a Go action function.
-func Native(ops []Op, partial bool) func(context.Context, match.Bindings, core.StepProps) (*core.Execution, error) {
+func Native(ops []Op, partial, inplace bool) func(context.Context, match.Bindings, core.StepProps) (*core.Execution, error) {
 	return func(ctx context.Context, bs match.Bindings, props core.StepProps) (*core.Execution, error) {
 		if len(ops) == 0 && bs != nil {
 			// an action with nothing to change returns the bindings it was given (as interpreters/noop does)
 			return core.NewExecution(bs), nil
 		}
 		cur := match.Bindings{}
-		for k, v := range bs {
-			cur[k] = enc.DeepCopy(v)
+		if inplace && bs != nil {
+			cur = bs
+		} else {
+			for k, v := range bs {
+				cur[k] = enc.DeepCopy(v)
+			}
 		}
 		exe := core.NewExecution(nil)
 		fail := func(err error) (*core.Execution, error) {
 			if partial {
+				if len(ops)%2 == 1 {
+					// (an Execution that was not made with NewExecution: it is an exported struct)
+					return &core.Execution{Bs: cur}, err
+				}
 				exe.Bs = cur
 				return exe, err
 			}
@@ -235,7 +244,7 @@ func Build(a *ASpec) *core.Spec {
 		n := &core.Node{}
 		if an.Act != nil {
 			if an.Native {
-				n.Action = &core.FuncAction{F: Native(an.Act, an.Partial)}
+				n.Action = &core.FuncAction{F: Native(an.Act, an.Partial, an.InPlace)}
 			} else {
 				n.ActionSource = actionSource(an.Act)
 			}
@@ -249,7 +258,7 @@ func Build(a *ASpec) *core.Spec {
 				}
 				if ab.Guard != nil {
 					if an.Native {
-						b.Guard = &core.FuncAction{F: Native(ab.Guard, false)}
+						b.Guard = &core.FuncAction{F: Native(ab.Guard, false, an.InPlace)}
 					} else {
 						b.GuardSource = actionSource(ab.Guard)
 					}
